@@ -117,6 +117,10 @@ def draw(rng, kind, size=None):
     elif kind == "complex":
         re = np.exp(rng.uniform(np.log(1e-1), np.log(1e1), size))
         im = rng.uniform(-2, 2, size) * re
+        # some links are ideal reactive elements (capacitor -jX, coil +jX)
+        ideal = rng.random(np.shape(re)) < 0.15
+        im = np.where(ideal & (np.abs(im) < 0.1), 0.5, im)
+        re = np.where(ideal, 0.0, re)
         x = re + 1j * im
     else:
         raise ValueError(kind)
@@ -306,7 +310,11 @@ def _battery(ctx, RN, r, cid, closed, relation, full, via_grid):
     if relerr(L, L.T) > RT:
         ctx.violation(f"effective_resistance:asymmetric{tag}{ctag}",
                       {**case, "lib": L}, cid)
-    if np.any(np.diag(L) != 0) or np.any(L.real[off] <= 0):
+    # (a passive network with ideal reactive elements may have a purely
+    #  reactive impedance between two nodes: non-zero, real part >= 0)
+    posoff = (np.abs(L[off]) > 0) & (L.real[off] >= -RT * np.abs(L[off])) \
+        if cplx else (L.real[off] > 0)
+    if np.any(np.diag(L) != 0) or not np.all(posoff):
         ctx.violation(f"effective_resistance:zero-iff-equal{tag}{ctag}",
                       {**case, "diag": np.diag(L),
                        "min_offdiag": L.real[off].min()}, cid)
